@@ -223,7 +223,7 @@ def run(ctx, report: Report) -> None:
     # find_bidi skipping the content of nested iframes: row of the pipeline table (R7)
 
     # ---- R3 ----------------------------------------------------------------------------------------------
-    r3 = report.rule('C17-R3', 'memo tables are identity-keyed lists', floor=1)
+    r3 = report.rule('C17-R3', 'memo tables are identity-keyed lists', floor=14)
     _, init = src.func('css_match.CSSMatch.__init__')
     from .e2ematch import lookalike_table
     from .sem import memo_container_problem
@@ -284,7 +284,7 @@ def run(ctx, report: Report) -> None:
 
     # ---- R6 ----------------------------------------------------------------------------------------------
     r6 = report.rule('C17-R6', 'directionality and placeholder content follow the HTML Standard (decision tables of the matcher functions)',
-                     floor=159)
+                     floor=226)
     from .sem import dir_table
     dir_table(ctx, r6)
     from ..interp import Obj, Raised, call_function
@@ -318,7 +318,7 @@ def run(ctx, report: Report) -> None:
     default_button_table(ctx, r3)
 
     # ---- R7 (the whole pipeline by interpretation, bounded) --------------------------------------------------------------
-    r7 = report.rule('C17-R7', ':dir() below dir=auto with invalid dir values, radio groups in nested forms, :default, :placeholder-shown (whole pipeline; bounded)', floor=10)
+    r7 = report.rule('C17-R7', ':dir() below dir=auto with invalid dir values, radio groups in nested forms, :default, :placeholder-shown (whole pipeline; bounded)', floor=12)
     from .e2ematch import state_pipeline_table
     state_pipeline_table(ctx, r7)
 
